@@ -59,7 +59,7 @@ func registerIntrinsics(in *Interp) {
 		if x.IsConst() && y.IsConst() {
 			return FP64Const(goMod(x.F64(), y.F64()))
 		}
-		res := FPFromBits(in.freshVar("fmod", BVSort(64)))
+		res := FPFromBits(UF("uf_fmod", BVSort(64), in.fpToBits(x), in.fpToBits(y)))
 		nan := Or(Or(FPIsNaN(x), FPIsNaN(y)), Or(FPIsInf(x), FPCmp(OpFPEq, y, FP64Const(0))))
 		ax, ay := FPAbs(x), FPAbs(y)
 		small := Or(FPIsInf(y), FPCmp(OpFPLt, ax, ay))
